@@ -386,7 +386,9 @@ fn run_one(f: &Flow, inp: &RunIn<'_>) -> RunOut {
             return out;
         }
         Verdict::Panic(msg, loc) => {
-            if msg.starts_with("Stream ended") {
+            if msg.starts_with(STEP_CAP_MSG) {
+                out.fail(format!("livelock/{name}"), msg.clone());
+            } else if msg.starts_with("Stream ended") {
                 out.fail(format!("ack_never_released/{name}"), format!("an acknowledgement of a sent increment never arrived: {msg}"));
             } else if panic_in_sut(loc) {
                 let file = loc.rsplit('/').next().unwrap_or(loc).split(':').next().unwrap_or("").to_string();
